@@ -3,7 +3,12 @@
    iv_timer_radix_tree_remove_level instead of before, (no_guard) the `if (p != m)` guard dropped.
    With both switches off it IS RadixModel.runregister; with either one on, unregistering at
    num_timers = 128 reaches the error value EUseAfterFree.  So C05_radix_no_dangling_slot is not
-   vacuous: it holds because of the order of the statements and of the guard. *)
+   vacuous: it holds because of the order of the statements and of the guard.
+
+   Likewise for the guard `(rat_depth + 1) * 7 < 32` of the growth test in iv_timer_get_node
+   (commit 3da677a): iv_timer_get_node with the unguarded test (the code before that commit)
+   executes `index >> 35` -- the error value EShift -- in every tree of depth 4, the depth that
+   the invariant forces from num_timers = 2^28 on. *)
 From Coq Require Import List ZArith Bool.
 From Ivv Require Import Timer.HeapModel Timer.HeapSpec Timer.RadixModel Timer.RadixSpec.
 Import ListNotations.
@@ -29,8 +34,10 @@ Definition runregister_var (late_null no_guard : bool) (rs : rstate) (t : id) : 
                   do tlast <- deref_timer rs3 p;
                   let rs3 := rset_idx rs3 tlast ix in
                   do rs3 <- (if late_null then Good rs3 else store rs3 m CNull);
-                  do rs4 <- (if (0 <? rdepth rs3) && (n =? Z.shiftl 1 (rdepth rs3 * SPLIT_BITS))
-                             then rremove_level rs3 else Good rs3);
+                  do shrink <- (if 0 <? rdepth rs3
+                                then do lim <- shl1_int (rdepth rs3 * SPLIT_BITS); Good (n =? lim)
+                                else Good false);
+                  do rs4 <- (if shrink : bool then rremove_level rs3 else Good rs3);
                   do rs4 <- (if late_null then store rs4 m CNull else Good rs4);
                   let rs5 := rset_num rs4 (n - 1) in
                   do rs7 <-
@@ -69,4 +76,55 @@ Proof. vm_compute. reflexivity. Qed.
 (* without `p != m`, unregistering the last timer dereferences p == m inside the freed leaf *)
 Example hazard_no_guard_refuted :
   runregister_var false true hazard_state 128%positive = RCrash EUseAfterFree.
+Proof. vm_compute. reflexivity. Qed.
+
+(* ---- the growth test without its guard (iv_timer_get_node before commit 3da677a) ---- *)
+Definition grow_test_unguarded (d index : Z) : rres bool :=
+  do v <- shr_int index ((d + 1) * SPLIT_BITS);
+  Good (negb (v =? 0)).
+
+Definition rget_node_var (guarded : bool) (rs : rstate) (index : Z) : rres (rstate * Z) :=
+  do grow <- (if guarded then grow_test (rdepth rs) index else grow_test_unguarded (rdepth rs) index);
+  do rs1 <-
+    (if negb grow then Good rs else
+       let rs1 := rset_depth rs (rdepth rs + 1) in
+       let '(rs2, r) := alloc rs1 in
+       do c <- load rs2 ROOT_CELL;
+       do rs3 <- store rs2 (r * NODES) c;
+       store rs3 ROOT_CELL (CNode r));
+  do r <- load_node rs1 ROOT_CELL;
+  match r with
+  | None => Bad ENull
+  | Some r =>
+      do x <- walk (Z.to_nat (rdepth rs1)) rs1 r (rdepth rs1) index;
+      let '(rs2, r') := x in
+      Good (rs2, r' * NODES + Z.land index (NODES - 1))
+  end.
+
+Lemma rget_node_var_faithful : forall rs index, rget_node_var true rs index = rget_node rs index.
+Proof. reflexivity. Qed.
+
+(* in ANY state of depth 4, for ANY index, the unguarded test is undefined behaviour ... *)
+Lemma unguarded_shift_refuted : forall rs index, rdepth rs = 4 ->
+  rget_node_var false rs index = Bad EShift.
+Proof. intros rs index E. unfold rget_node_var, grow_test_unguarded. rewrite E. reflexivity. Qed.
+
+(* ... and depth 4 with num_timers = 2^28 is what the invariant prescribes (128^4 <= 2^28 < 128^5) *)
+Lemma depth4_population : RadixSpec.P 4 <= 2 ^ 28 < RadixSpec.P 5 /\ 2 ^ 28 < 2 ^ 31.
+Proof. vm_compute. repeat split; intro; discriminate. Qed.
+
+(* a concrete tree of depth 4: iv_timer_get_node on 128, 128^2, 128^3, 128^4 from the empty store grows one
+   level each time (only the nodes on these paths are allocated).  The lookup of slot 2^27 -- the first
+   thing pull_up does after the 2^28-th registration -- is fine with the guard, EShift without. *)
+Definition depth4_state : rstate :=
+  fold_left (fun rs i => match rget_node rs i with Good (rs', _) => rs' | Bad _ => rs end)
+            [2 ^ 7; 2 ^ 14; 2 ^ 21; 2 ^ 28] rinit.
+
+Example hazard_depth4_guarded_ok :
+  (rdepth depth4_state =? 4) &&
+  (match rget_node depth4_state (2 ^ 27) with Good (rs, _) => rdepth rs =? 4 | Bad _ => false end) = true.
+Proof. vm_compute. reflexivity. Qed.
+
+Example hazard_unguarded_shift_refuted :
+  rget_node_var false depth4_state (2 ^ 27) = Bad EShift.
 Proof. vm_compute. reflexivity. Qed.
